@@ -224,6 +224,11 @@ def p_c12(tier):
         sh.append(mcx("scribble-%s" % tn, prop="C12", table=t, cap=6, name_alpha=alpha, args_alpha="1A", max_name=3 if quick else 4, max_args=7, D=1, dev=DEV,
                       lines=2, crlf=1, blank=1, refuse_read=1, refuse_write=1, scribble=1, codes_W="OK,ERROR,NEXT", codes_R="OK,DATA_OK,DATA_NEXT,ERROR",
                       codes_U="OK,ERROR,LIST", codes_T="OK,DATA_OK,ERROR", max_inv=1, mon="C12"))
+    # "no byte yet" signalled by -1 and by 2 instead of 0 (cat.h: only 1 means a byte was read), with and without scribbling over the character cell
+    for rr in (2, 3):
+        for scr in (0, 1):
+            sh.append(mcx("noread%d-scribble%d" % (rr, scr), prop="C12", table=T_AMBIG, cap=6, name_alpha="+TABZ", args_alpha="1A", max_name=3, max_args=7, D=1 if scr else 0, dev=DEV,
+                          lines=2, crlf=1, blank=1, refuse_read=rr, refuse_write=1, scribble=scr, codes_W="OK,ERROR", codes_R="OK,DATA_OK", codes_U="OK,ERROR", codes_T="OK", max_inv=1, mon="C12"))
     sh += [s for s in c11_shards(tier, prop="C12", mon="C12") if s["tag"].endswith("-run") or "refuse" in s["tag"]]
     for ring in (1, 2):
         sh.append(duplex_overlong("overlong-with-event-r%d" % ring, ring, ring % 2 + 1, "C12", "C12"))
